@@ -723,7 +723,10 @@ pub fn check(rec: &RunRecord) -> Vec<Violation> {
         // (Only an undecodable frame is a *failure* for the runtime; a lane that merely closes its
         // channel is treated as having ended and its links are closed when the agent stops.)
         let garbage = matches!(rec.scenario.fake.as_ref().map(|f| &f.mode), Some(super::fake::FailMode::Garbage | super::fake::FailMode::TornFrame));
-        if let (Some(fs), Some(qs), true, true) = (lane_failed, q, clean_end, garbage) {
+        // A lane that drops its channels at a frame boundary has failed just as well (it can never produce anything
+        // again); the runtime does not see it that way - its own class (recorded finding).
+        let ended = matches!(rec.scenario.fake.as_ref().map(|f| &f.mode), Some(super::fake::FailMode::DropIo));
+        if let (Some(fs), Some(qs), true, true) = (lane_failed, q, clean_end, garbage || ended) {
             // Only links that were open when the lane failed are covered by the statement: a link
             // requested after the failure is out of scope (the runtime accepts it; recorded as an observation).
             let requested_after = reqs.iter().any(|s| matches!(s.op, Op::Link { .. } | Op::Sync { .. }) && s.end >= fs);
@@ -746,7 +749,7 @@ pub fn check(rec: &RunRecord) -> Vec<Violation> {
             };
             let requested_after = requested_after || open_since.map(|s| s >= fs).unwrap_or(true);
             if fs <= qs && !requested_after && info.closed_read.is_none() && info.closed_write.is_none() && !info.write_failed && in_link_at(frames, qs) {
-                out.push(Violation::new("C04", "C04.lane_failure_link_left_open", "", format!("peer {peer} lane {lane}: the lane failed at step {fs} but the link is still open at quiescence (step {qs})")));
+                out.push(Violation::new("C04", "C04.lane_failure_link_left_open", if ended { "lane_ended" } else { "" }, format!("peer {peer} lane {lane}: the lane failed at step {fs} but the link is still open at quiescence (step {qs})")));
             }
         }
         if lane_failed.is_some() {
